@@ -15,8 +15,9 @@ Q = "twisted.conch.telnet.Telnet."
 TECHNIQUE = ("structural: dispatch-table exhaustiveness and table agreement, per-row CFG path obligations (detach-then-fire, reply discipline, must-precede), "
              "who-may-write closed over the call graph, on the normalised view of Telnet; framing clauses included from C38 (finite-exhaustive transition table + structural "
              "rules + bounded corpus, kinds as declared there)")
-RULE_KINDS = {      # every rule of this module is decided on the shape of the normalised code; included "C38:..." rules carry C38's kinds
+RULE_KINDS = {      # decided on the shape of the normalised code, except the history/ witnesses; included "C38:..." rules carry C38's kinds
     "*": "structural",
+    "history/": "bounded",
 }
 EXPLANATION = (
     "Reads the four negotiation tables (willMap/wontMap/doMap/dontMap) of Telnet from the AST and decides: (a) each table has "
@@ -33,6 +34,9 @@ EXPLANATION = (
     "C38:reader/round-trip, flush-at-chunk-end, delivery-unchanged, unknown-state-raises are bounded witnesses). All rules (a)-(e) are STRUCTURAL: tables are read from "
     "the AST, path obligations are CFG dominance / must-precede / exactly-once counts on the normalised view (private helpers inlined, named temporaries substituted), "
     "writers are closed over the call graph; nothing is evaluated, no clause of this property rests on bounded evidence only. "
+    "send/unconditional: each of _will/_wont/_do/_dont writes its command on every path (a send that depends on other state leaves an armed request without its "
+    "command or the peer without its answer) - structural. Bounded witnesses history/...: the negotiation methods interpreted on refuse-then-retry, "
+    "re-offer-after-refusal and enable-then-disable histories (each request written, each Deferred fired once, each offer answered). "
     "Not decided: convergence over message interleavings of two endpoints (needs state exploration), user policy hooks."
 )
 ASSUMPTIONS = [
@@ -171,6 +175,17 @@ def check(ctx):
             ws = [c for c in ast.walk(f) if isinstance(c, ast.Call) and _raw_write(c)]
             good = len(ws) == 1 and len(ws[0].args) == 1 and src(ws[0].args[0]) == f"IAC + {snd[1:].upper()} + {f.args.args[1].arg}"
             ctx.check(good, "send/command-byte", Q + snd, f"{snd} does not write exactly IAC + {snd[1:].upper()} + option")
+            # ... and writes it on every path: the requesters arm `negotiating` / the Deferred and the refusing rows owe the peer an answer on the strength
+            # of this call; a send that depends on other state (e.g. "not the same command as last time") leaves a request without its command
+            if good:
+                gs = ctx.cfg(f)
+                wn = [n_ for w_ in ws for n_ in gs.ids_of(w_)]
+                from sa.props._lib_h import edge_path as _ep
+                wpath = _ep(gs, [gs.entry], [gs.exit], avoid_nodes=wn)
+                ctx.check(bool(wn) and wpath is None, "send/unconditional", Q + snd,
+                          f"{snd} can return without having written IAC {snd[1:].upper()} <option>: the send is conditional, so a request armed by "
+                          f"{snd[1:]}() (negotiating set, Deferred handed out) or an answer owed to the peer may never be transmitted - the Deferred never fires / the "
+                          "peer waits for a reply", witness=gs.describe(wpath))
     with ctx.section('command-bytes'):
         consts = {}
         for st in mod.tree.body:
@@ -534,6 +549,117 @@ def check(ctx):
     # C38's receive automaton (every two-way split of IAC WILL/WONT/DO/DONT x and IAC SB .. IAC SE, state kept on the instance)
     # are necessary clauses here too - a lost command leaves the request Deferred unfired
     ctx.include("C38", rule_filter=lambda r: r.startswith("reader/"), why="negotiation commands must survive segmentation to be dispatched")
+    with ctx.section('history/negotiations'):
+        _histories(ctx, mod)
+
+
+def _histories(ctx, mod):
+    """Bounded second layer: Telnet's negotiation methods interpreted (whitelisted interpreter, stand-in Deferreds, recording _write) on short histories of
+    requests and peer answers, including refuse-then-retry and re-offer-after-refusal: every request writes its command and its Deferred fires exactly once
+    when the peer answers; every unsolicited request from the peer is answered exactly once."""
+    from sa.props._lib_h import xvm
+    from sa.props._lib_h_d import VMError, VMStub
+    from sa.source import AnalysisError
+    C = {}
+    for st in mod.tree.body:
+        if isinstance(st, ast.Assign) and len(st.targets) == 1 and isinstance(st.targets[0], ast.Name) and isinstance(st.value, ast.Call) \
+                and call_name(st.value) == "_chr" and len(st.value.args) == 1 and isinstance(st.value.args[0], ast.Constant):
+            C[st.targets[0].id] = bytes((st.value.args[0].value,))
+    need = ("IAC", "WILL", "WONT", "DO", "DONT")
+    if any(k not in C for k in need):
+        raise AnalysisError("C39: telnet command constants")
+    IAC, WILL, WONT, DO, DONT = (C[k] for k in need)
+    OPT = b"\x2a"
+
+    class Deferred(VMStub):
+        def __init__(self):
+            self.fired = []
+
+        def callback(self, v):
+            self.fired.append(("ok", v))
+
+        def errback(self, v):
+            self.fired.append(("fail", v))
+
+        def addCallback(self, *a, **k):
+            return self
+
+        addErrback = addBoth = addCallback
+
+    _Deferred = Deferred
+
+    class DeferMod(VMStub):
+        Deferred = _Deferred
+
+        @staticmethod
+        def fail(v):
+            d = _Deferred()
+            d.fired.append(("fail", v))
+            return d
+
+    def run(steps, accept):
+        wire = []
+        vm = xvm(mod, hooks={"_write": lambda vm_, o, data: wire.append(bytes(data)),
+                             "enableRemote": lambda vm_, o, opt: accept, "enableLocal": lambda vm_, o, opt: accept,
+                             "disableRemote": lambda vm_, o, opt: None, "disableLocal": lambda vm_, o, opt: None}, budget=2 * 10 ** 6)
+        vm.mod._g["defer"] = DeferMod()
+        tel = vm.new(vm.cls("Telnet"))
+        log = []
+        for kind, name in steps:
+            n0 = len(wire)
+            try:
+                if kind == "request":
+                    d = vm.call_method(tel, name, OPT)
+                    log.append(("request", name, d, wire[n0:]))
+                else:
+                    vm.call_method(tel, "telnet_" + name, OPT)
+                    log.append(("peer", name, None, wire[n0:]))
+            except VMError as e:
+                raise AnalysisError(f"C39: negotiation history outside the interpreter's subset: {e}")
+            except Exception as e:
+                log.append(("raises", name, f"{type(e).__name__}: {e}", wire[n0:]))
+        return log
+    q = Q[:-1] + " | <negotiation histories>"
+    REQ = {"do": (DO, "WILL", "WONT"), "dont": (DONT, "WONT", None), "will": (WILL, "DO", "DONT"), "wont": (WONT, "DONT", None)}
+    n = 0
+    bad = None
+    # refuse-then-retry: request, peer refuses, same request again, peer refuses again / agrees
+    for req in ("do", "will"):
+        cmd, yes, no = REQ[req]
+        for second in (no, yes):
+            n += 1
+            log = run([("request", req), ("peer", no), ("request", req), ("peer", second)], True)
+            probs = []
+            for i in (0, 2):
+                k, nm, d, w = log[i]
+                if k != "request" or w != [IAC + cmd + OPT]:
+                    probs.append(f"{'first' if i == 0 else 'second'} {req}() wrote {w!r} instead of IAC {req.upper()} <option>")
+                ans = log[i + 1]
+                fired = getattr(d, "fired", None)
+                if fired is None or len(fired) != 1:
+                    probs.append(f"the Deferred of the {'first' if i == 0 else 'second'} {req}() fired {0 if not fired else len(fired)} times after the peer's {ans[1]}")
+            if probs and bad is None:
+                bad = (f"{req}(), peer {no}, {req}() again, peer {second}", probs)
+    ctx.check(bad is None, "history/request-written-and-answered", q + " | refuse then retry",
+              f"{bad[0] if bad else ''}: {'; '.join(bad[1]) if bad else ''} - the request stays 'negotiating' for ever and every later request fails with AlreadyNegotiating",
+              detail=f"{n} histories")
+    # the peer re-offers an option we refuse: every offer gets its refusal
+    bad = None
+    for offer, refusal in (("WILL", DONT), ("DO", WONT)):
+        n += 1
+        log = run([("peer", offer), ("peer", offer), ("peer", offer)], False)
+        ws = [w for _, _, _, w in log]
+        if any(w != [IAC + refusal + OPT] for w in ws) and bad is None:
+            bad = (offer, ws)
+    ctx.check(bad is None, "history/every-offer-answered", q + " | re-offer after refusal",
+              f"the peer sends {bad[0] if bad else ''} for a refused option three times; the answers written are {bad[1] if bad else []!r} (each offer must be refused again: "
+              "a peer waiting for the reply hangs)", detail="2 histories of three offers")
+    # agree then disable: the plain path still works
+    n += 1
+    log = run([("request", "do"), ("peer", "WILL"), ("request", "dont"), ("peer", "WONT")], True)
+    okp = [e[3] for e in log] == [[IAC + DO + OPT], [], [IAC + DONT + OPT], []] and all(len(getattr(e[2], "fired", [])) == 1 for e in log if e[0] == "request")
+    ctx.check(okp, "history/request-written-and-answered", q + " | enable then disable", f"do / WILL / dont / WONT: {[(e[0], e[1], e[3]) for e in log]!r}")
+    ctx.extra["negotiation_histories"] = n
 
 
 def _option_state_lifetime(ctx, mod):
@@ -617,6 +743,11 @@ MUTANTS = [
            expect_rule="request/sends-own-command"),
     Mutant("table-key-method-swaps-the-pair", T, '        self.willMap[s.him.state, s.him.negotiating](self, s, option)', '        self.willMap[s.him.key()](self, s, option)', expect_rule="dispatch/",
            more=[(T, '            onResult = None\n\n            def __str__(self) -> str:', '            onResult = None\n\n            def key(self):\n                return self.negotiating, self.state\n\n            def __str__(self) -> str:')]),
+    # a sender that suppresses what it takes for a repetition: the second refusal of a re-offered option is never written
+    Mutant("refusal-not-repeated-for-the-same-option", T, '    def _dont(self, option):\n        self._write(IAC + DONT + option)\n',
+           '    def _dont(self, option):\n        if getattr(self, "_lastRefused", None) == option:\n            return\n        self._lastRefused = option\n        self._write(IAC + DONT + option)\n', expect_rule="send/unconditional"),
+    Mutant("refusal-not-repeated-for-the-same-option-history", T, '    def _dont(self, option):\n        self._write(IAC + DONT + option)\n',
+           '    def _dont(self, option):\n        if getattr(self, "_lastRefused", None) == option:\n            return\n        self._lastRefused = option\n        self._write(IAC + DONT + option)\n', expect_rule="history/every-offer-answered"),
 ]
 SILENT = [
     Silent("requester-named-perspective-and-split-assignment", T, "    def dont(self, option):\n        s = self.getOptionState(option)\n        if s.us.negotiating or s.him.negotiating:\n            return defer.fail(AlreadyNegotiating(option))\n        elif s.him.state == \"no\":\n            return defer.fail(AlreadyDisabled(option))\n        else:\n            s.him.negotiating = True\n            s.him.onResult = d = defer.Deferred()\n            self._dont(option)\n            return d\n",
@@ -641,4 +772,6 @@ SILENT = [
     Silent("will-sender-picked-by-name", T, "            s.us.onResult = d = defer.Deferred()\n            self._will(option)\n", "            s.us.onResult = d = defer.Deferred()\n            getattr(self, \"_will\")(option)\n"),
     Silent("table-key-from-a-method-of-the-perspective", T, '        self.willMap[s.him.state, s.him.negotiating](self, s, option)', '        self.willMap[s.him.key()](self, s, option)',
            more=[(T, '            onResult = None\n\n            def __str__(self) -> str:', '            onResult = None\n\n            def key(self):\n                return self.state, self.negotiating\n\n            def __str__(self) -> str:')]),
+    Silent("sender-names-the-command-first", T, '    def _do(self, option):\n        self._write(IAC + DO + option)\n',
+           '    def _do(self, option):\n        command = IAC + DO + option\n        self._write(command)\n'),
 ]
